@@ -1,11 +1,20 @@
 /-
   Driver/C05.lean — line-protocol front end of Model/SpanGuard.lean.
-    stream `c05`  : (c05 ENABLED (clock R…) (ops OP…)) → calls, returned bools, is_enabled after every op
+    stream `c05`  : (c05 ENABLED (clock R…) (ops OP…) [HOLDER]) → deliveries, returned bools, is_enabled after every op
         R  ::= none | N
-        OP ::= start | (mdl xS) | (name xS) | (props (xK xV)…) | (map (xK xV)…) | (comp N) | complete | (cwith N) | drop
+        OP ::= start | (mdl xS) | (name xS) | (props (xK xV)…) | (map (xK xV)…) | (comp N [AD]) | complete
+             | (cwith N [AD]) | drop
+        AD ::= rec | ref | fromfn | fromemitter | erased | erasedss | empty     the adapter recorder N sits behind
+               (`&C`, `completion::from_fn`, `completion::from_emitter`, `dyn ErasedCompletion`, `… + Send + Sync`,
+                `Empty`; default rec = the recorder itself). A delivery is `(N xMDL xNAME PROPS EXTENT)` — the span the
+               recorder received — or, behind from_emitter, `(N evt xMDL xTPL PROPS EXTENT)` — the event its emitter got.
+        HOLDER ::= direct | ref | some | none | box | arc | assert | dyn | dynss   how the guard holds the scripted clock
+               (`T`, `&T`, `Some(T)`, `None`, `Box<T>`, `Arc<T>`, `AssertInternal<T>`, `&dyn ErasedClock`,
+                `Box<dyn ErasedClock + Send + Sync>`); default direct
         The list must end with its only terminal (complete | cwith | drop).
-    stream `c05d` : (c05d ENABLED LVL PLVL TPL (clock R…) (ambient (xK xV)…) (spanprops (xK xV)…) EXIT)
+    stream `c05d` : (c05d ENABLED LVL PLVL TPL (clock R…) (ambient (xK xV)…) (spanprops (xK xV)…) EXIT [VIA])
         LVL, PLVL, TPL ::= none | xS ; EXIT ::= drop | complete | panic
+        VIA ::= ref | erased | erasedss | fromfn       how `completion::Default` is handed to the guard (transparent)
         → the event the default completion emits (or `none`)
 -/
 import EmitModel.Base.Sexp
@@ -22,6 +31,28 @@ def kv? : Sexp → Option (String × String)
   | .list [k, v] => do pure ((← k.str?), (← v.str?))
   | _ => none
 
+def adapter? : Sexp → Option Adapter
+  | .atom "rec" => some .direct
+  | .atom "ref" => some .ref
+  | .atom "fromfn" => some .fromFn
+  | .atom "fromemitter" => some .fromEmitter
+  | .atom "erased" => some .erased
+  | .atom "erasedss" => some .erasedSendSync
+  | .atom "empty" => some .empty
+  | _ => none
+
+def holder? : Sexp → Option ClockHolder
+  | .atom "direct" => some .direct
+  | .atom "ref" => some .ref
+  | .atom "some" => some .some_
+  | .atom "none" => some .none_
+  | .atom "box" => some .box
+  | .atom "arc" => some .arc
+  | .atom "assert" => some .assertInternal
+  | .atom "dyn" => some .erased
+  | .atom "dynss" => some .erasedSendSync
+  | _ => none
+
 def op? : Sexp → Option Op
   | .atom "start" => some .start
   | .atom "complete" => some .complete
@@ -30,8 +61,10 @@ def op? : Sexp → Option Op
   | .list [.atom "name", s] => s.str?.map Op.withName
   | .list (.atom "props" :: kvs) => (kvs.mapM kv?).map Op.withProps
   | .list (.atom "map" :: kvs) => (kvs.mapM kv?).map Op.mapProps
-  | .list [.atom "comp", n] => n.nat?.map Op.withCompletion
-  | .list [.atom "cwith", n] => n.nat?.map Op.completeWith
+  | .list [.atom "comp", n] => n.nat?.map fun n => Op.withCompletion (compCode n .direct)
+  | .list [.atom "cwith", n] => n.nat?.map fun n => Op.completeWith (compCode n .direct)
+  | .list [.atom "comp", n, a] => do pure (Op.withCompletion (compCode (← n.nat?) (← adapter? a)))
+  | .list [.atom "cwith", n, a] => do pure (Op.completeWith (compCode (← n.nat?) (← adapter? a)))
   | _ => none
 
 def isTerminal : Op → Bool
@@ -48,6 +81,15 @@ def showExtent : Option (Nat × Nat) → String
 def showCall (c : Call) : String :=
   s!"({c.by_} {atomOfString c.mdl} {atomOfString c.name} {showProps c.props} {showExtent c.extent})"
 
+def showExt : Option Ext → String
+  | none => "none"
+  | some (.range a b) => s!"({a} {b})"
+  | some (.point t) => s!"(point {t})"
+
+def showDelivered : Delivered → String
+  | .span _ c => showCall c
+  | .event to e => s!"({to} evt {atomOfString e.mdl} {atomOfString e.tpl} {showProps e.props} {showExt e.extent})"
+
 /-- is_enabled after every operation that leaves a usable guard (i.e. every builder op) -/
 def enabledTrace (g : Guard) (clk : Clock) : List Op → List Bool
   | [] => []
@@ -63,35 +105,45 @@ def wellFormed (ops : List Op) : Bool :=
   | t :: bs => isTerminal t && bs.all (fun o => !isTerminal o)
 
 def runC05 (line : String) : String :=
-  match Sexp.parse line with
-  | some (.list [.atom "c05", en, .list (.atom "clock" :: rs), .list (.atom "ops" :: os)]) =>
+  let parsed := match Sexp.parse line with
+    | some (.list [.atom "c05", en, .list (.atom "clock" :: rs), .list (.atom "ops" :: os)]) =>
+      some (en, rs, os, ClockHolder.direct)
+    | some (.list [.atom "c05", en, .list (.atom "clock" :: rs), .list (.atom "ops" :: os), h]) =>
+      (holder? h).map fun h => (en, rs, os, h)
+    | _ => none
+  match parsed with
+  | some (en, rs, os, holder) =>
     match en.bool?, rs.mapM reading?, os.mapM op? with
     | some enabled, some clk, some ops =>
       if !wellFormed ops then "bad-op" else
+      let clk := holder.script clk
       let g := new enabled 0 d0
       let (calls, rets, _, _) := run g clk ops
       let en := enabledTrace g clk ops
-      let out := s!"calls=({" ".intercalate (calls.map showCall)}) rets={rets} enabled={en}"
+      let delivered := calls.flatMap deliver
+      let out := s!"calls=({" ".intercalate (delivered.map showDelivered)}) rets={rets} enabled={en}"
       let started := ops.contains .start
-      let sig := if ops.length ≤ 1 then "trivial" else s!"en={enabled},started={started},calls={calls.length},term={match ops.getLast? with | some .complete => "complete" | some (.completeWith _) => "cwith" | _ => "drop"}"
+      let adapters := (ops.filterMap fun | .withCompletion c => some (compAdapter c) | .completeWith c => some (compAdapter c) | _ => none).eraseDups.length
+      let sig := if ops.length ≤ 1 then "trivial" else s!"en={enabled},started={started},calls={calls.length},delivered={delivered.length},adapters={adapters},holder={repr holder},term={match ops.getLast? with | some .complete => "complete" | some (.completeWith _) => "cwith" | _ => "drop"}"
       s!"{out}\t{sig}"
     | _, _, _ => "bad-op"
-  | _ => "bad-op"
+  | none => "bad-op"
 
 def optStr? : Sexp → Option (Option String)
   | .atom "none" => some none
   | s => s.str?.map some
 
-def showExt : Option Ext → String
-  | none => "none"
-  | some (.range a b) => s!"({a} {b})"
-  | some (.point t) => s!"(point {t})"
-
 def showEmitted (e : Emitted) : String :=
   s!"({atomOfString e.mdl} {atomOfString e.tpl} {showExt e.extent} {showProps e.props})"
 
 def runC05d (line : String) : String :=
-  match Sexp.parse line with
+  -- how the default completion is handed to the guard does not enter the model (theorem `adapters_transparent`)
+  let line? : Option Sexp := match Sexp.parse line with
+    | some (.list [t, en, lvl, plvl, tpl, clk, amb, sps, exit, .atom via]) =>
+      if via == "ref" || via == "erased" || via == "erasedss" || via == "fromfn" then
+        some (.list [t, en, lvl, plvl, tpl, clk, amb, sps, exit]) else none
+    | x => x
+  match line? with
   | some (.list [.atom "c05d", en, lvl, plvl, tpl, .list (.atom "clock" :: rs), .list (.atom "ambient" :: amb),
                  .list (.atom "spanprops" :: sps), .atom exit]) =>
     match en.bool?, optStr? lvl, optStr? plvl, optStr? tpl, rs.mapM reading?, amb.mapM kv?, sps.mapM kv? with
@@ -111,8 +163,10 @@ end EmitModel.Driver.C05
 namespace EmitModel.Driver.C05
 open EmitModel EmitModel.SpanGuard
 
-/-  stream `c05m` : (c05m FORM LVL OK ERR MAPPED PAN ENABLED EXIT (clock R…))
-        FORM ::= sync | async | gdrop | gcomplete | block | bunstarted | blate ; LVL,OK,ERR,PAN ::= none | debug|info|warn|error
+/-  stream `c05m` : (c05m FORM LVL OK ERR MAPPED PAN ENABLED EXIT (clock R…) [HOLDER])
+        HOLDER (as in c05): the macro call site is generic over the runtime and the runtime holds the scripted clock
+        that way (fixtures in c05m/holders.rs: FORM sync|async, OK none|info, nothing else) -/
+/-      FORM ::= sync | async | gdrop | gcomplete | block | bunstarted | blate ; LVL,OK,ERR,PAN ::= none | debug|info|warn|error
         EXIT ::= ok | early | qerr | reterr | panic
     → ret=<ok1|ok2|ok7|err|panic> events=(…) -/
 
@@ -129,13 +183,21 @@ def showMacroEvent (e : Emitted) : String :=
   s!"(lvl={lookupF "lvl" e.props} err={lookupF "err" e.props} extent={showExt e.extent} name={atomOfString (lookupF "span_name" e.props)} kind={lookupF "evt_kind" e.props} mdl={atomOfString e.mdl} tpl={atomOfString e.tpl})"
 
 def runC05m (line : String) : String :=
-  match Sexp.parse line with
-  | some (.list [.atom "c05m", .atom form, lvl, ok, err, mapped, pan, en, .atom exit, .list (.atom "clock" :: rs)]) =>
+  let parsed : Option (Sexp × Option ClockHolder) := match Sexp.parse line with
+    | some (.list [t, form, lvl, ok, err, mapped, pan, en, exit, clk, h]) =>
+      (holder? h).map fun h => (.list [t, form, lvl, ok, err, mapped, pan, en, exit, clk], some h)
+    | some x => some (x, none)
+    | none => none
+  match parsed with
+  | some (.list [.atom "c05m", .atom form, lvl, ok, err, mapped, pan, en, .atom exit, .list (.atom "clock" :: rs)], holder) =>
     match optAtom? lvl, optAtom? ok, optAtom? err, mapped.bool?, optAtom? pan, en.bool?, rs.mapM reading? with
     | some lvl, some ok, some err, some mapped, some pan, some enabled, some clk =>
       let isFn := form == "sync" || form == "async"
-      let formOk := isFn || ((form == "gdrop" || form == "gcomplete" || form == "block" || form == "bunstarted" || form == "blate")
-        && ok.isNone && err.isNone && !mapped)
+      let holderOk := holder.isNone || (isFn && lvl.isNone && err.isNone && !mapped && pan.isNone && (ok.isNone || ok == some "debug"))
+      let clk := match holder with | some h => h.script clk | none => clk
+      let mdl := if holder.isSome then "hcore::streams::c05m::holders" else "hcore::streams::c05m::fixtures"
+      let formOk := holderOk && (isFn || ((form == "gdrop" || form == "gcomplete" || form == "block" || form == "bunstarted" || form == "blate")
+        && ok.isNone && err.isNone && !mapped))
       let exit? : Option (Exit × String) :=
         if exit == "ok" then some (.ok, if isFn then "ok1" else "ok7")
         else if exit == "early" && isFn then some (.ok, "ok2")
@@ -150,11 +212,11 @@ def runC05m (line : String) : String :=
         let evs :=
           if form == "bunstarted" then
             -- the guard is dropped (normally or by the panic) without ever having been started
-            (run (new enabled compDefault ⟨"hcore::streams::c05m::fixtures", "fx {n}", []⟩) clk [.drop]).1.map
+            (run (new enabled compDefault ⟨mdl, "fx {n}", []⟩) clk [.drop]).1.map
               (macroEvent cfg ex "fx {n}" "boom" [] none)
-          else macroRun cfg enabled ex clk "hcore::streams::c05m::fixtures" "fx {n}" "fx {n}"
+          else macroRun cfg enabled ex clk mdl "fx {n}" "fx {n}"
             (if mapped then "inner-boom" else "boom") []
-        s!"ret={ret} events=({" ".intercalate (evs.map showMacroEvent)})\tform={form},res={cfg.useResult},en={enabled},exit={exit}"
+        s!"ret={ret} events=({" ".intercalate (evs.map showMacroEvent)})\tform={form},res={cfg.useResult},en={enabled},exit={exit},holder={match holder with | some h => repr h | none => "-"}"
       | _, _ => "bad-op"
     | _, _, _, _, _, _, _ => "bad-op"
   | _ => "bad-op"
